@@ -2,7 +2,7 @@
    projected observables.  Evaluated with vm_compute by ./check C12.
 
    Three kinds of case:
-   - codec:   generateShmMetadata's bytes / extractShmMetadata's result (or panic) vs. generate / extract;
+   - codec:   generateShmMetadata's bytes / extractShmMetadata's result (or error) vs. generate / extract;
    - peer:    one REAL end (client or server) against a scripted byte-level peer: the frames the real
               end wrote, its outcome class and version vs. the model's end run on the same script;
    - pairing: two REAL ends: outcome classes, versions, same-memory vs. the model's run. *)
@@ -30,14 +30,15 @@ Record codec_case := {
   cc_ver : Z; cc_ty : Z; cc_q : bytes; cc_b : bytes;
   cc_bytes : bytes;                 (* what generateShmMetadata produced *)
   cc_body : bytes;                  (* the body handed to extractShmMetadata (may be malformed) *)
-  cc_panic : bool; cc_ext_b : bytes; cc_ext_q : bytes }.
+  cc_err : bool;                    (* extractShmMetadata returned an error *)
+  cc_ext_b : bytes; cc_ext_q : bytes }.
 
 (* 0 agree; 1 generate differs; 2 extract differs *)
 Definition check_codec (c : codec_case) : Z :=
   if negb (bytes_eqb (generate (cc_ver c) (cc_ty c) (cc_q c) (cc_b c)) (cc_bytes c)) then 1
   else match extract (cc_body c) with
-       | Panic _ => if cc_panic c then 0 else 2
-       | Ok (b, q) => if cc_panic c then 2
+       | Bad _ => if cc_err c then 0 else 2
+       | Ok (b, q) => if cc_err c then 2
                       else if bytes_eqb b (cc_ext_b c) && bytes_eqb q (cc_ext_q c) then 0 else 2
        end.
 
